@@ -407,7 +407,7 @@ static bool
 peekparen(void)
 {
 	static struct array pending;
-	struct token *t;
+	struct token *t, old;
 	struct frame *f;
 
 	t = ctxnext();
@@ -420,8 +420,10 @@ peekparen(void)
 		return false;
 	}
 	pending.len = 0;
+	old = tok;  /* directives met on the way scan into tok */
 	do t = arrayadd(&pending, sizeof(*t)), nextinto(t);
 	while (t->kind == TNEWLINE);
+	tok = old;
 	if (t->kind == TLPAREN)
 		return true;
 	t = pending.val;
